@@ -311,6 +311,11 @@ def body_lines(ctx, case):
     ctx.check(list(res_text[0]) == list(ts), "text_only_mode_stitches_differently",
               lambda: "classes=%r max_line_width=%d: with logits %r, no_logits %r" % (lines_classes, mlw, ts, res_text[0]))
     ctx.check(all(l is None for l in res_text[1]), "logits_returned_in_no_logits_mode", lambda: "%r" % (res_text[1],))
+    # sparse storage of the stitched logits (the default of process_lines)
+    res_sp = ctx.must("process_lines_raises", make_engine(mlw, bs, []).process_lines, [im.copy() for im in imgs], True)
+    ctx.check(list(res_sp[0]) == list(ts), "sparse_mode_stitches_differently", lambda: "dense %r sparse %r" % (ts, res_sp[0]))
+    ctx.check(all(hasattr(l, "toarray") and l.shape[0] == len(t) for l, t in zip(res_sp[1], ts)), "sparse_logit_rows_differ_from_text_length",
+              lambda: "%r" % ([getattr(l, "shape", None) for l in res_sp[1]],))
     split = False
     for i, im in enumerate(imgs):
         wins = expected_windows(im, mlw)
@@ -326,7 +331,7 @@ def body_lines(ctx, case):
             i, lines_classes[i], im.shape[1], mlw, parts, ts[i], [c[0] for c in cands])
         ctx.check(any(c[0] == ts[i] for c in cands), "line_text_not_merge_of_its_windows", desc)
         ctx.check(ls[i] is not None and ls[i].shape[0] == len(ts[i]), "logit_rows_differ_from_text_length", desc)
-        ctx.check(list(coords[i]) == [0, len(ts[i])], "logit_coords", lambda: "coords=%r text=%r" % (coords[i], ts[i]))
+        ctx.check(coords[i] is not None and list(coords[i]) == [0, len(ts[i])], "logit_coords", lambda: "coords=%r text=%r" % (coords[i], ts[i]))
         if len(wins) > 1:
             ctx.event("windows:%d" % min(len(wins), 6))
     if split and len(imgs) >= 2:
